@@ -185,6 +185,34 @@ def run(ctx, rep):
         else:
             rep.ok("R10.3", "decode only while no error is latched", "", where=g.where(cn))
 
+    # ---------------- R10.6 -------------------------------------------------------------
+    rep.rule("R10.6", "between the decoder and the tolerated-error table an I/O error is never re-created with a fixed kind: "
+                      "`io::Error::new(K, ..e..)` must use K = e.kind(), otherwise a torn tail (UnexpectedEof) is no longer recognisable")
+    n_new = 0
+    for n in P.calls(r"io::Error::new$|io::Error::other$"):
+        inst = g.inst(n)
+        # only constructions inside the record-loading path (decoder, record iterator, loader) matter
+        a = [strip_ids(x) for x in event_args(g, n)]
+        derived = any(contains(x, lambda y: isinstance(y, tuple) and y and (y[0] in ("errval", "cl_arg") or
+                                                                            (y[0] == "call" and re.search(r"ToString>?::to_string$|fmt::format$", str(y[1]))
+                                                                             and contains(y, lambda z: isinstance(z, tuple) and z and z[0] in ("errval", "cl_arg")))))
+                      for x in a[1:]) if len(a) > 1 else (len(a) == 1 and contains(a[0], lambda y: isinstance(y, tuple) and y and y[0] in ("errval", "cl_arg")))
+        if not derived:
+            continue
+        n_new += 1
+        in_decode_path = any(re.search(r"codeq::Decode>::decode|Iterator>::next", i_.key) for i_ in _ancestors(inst))
+        if not in_decode_path:
+            continue
+        kind = a[0] if len(a) > 1 else None
+        if kind is not None and call_is(kind, r"io::Error::kind$"):
+            rep.ok("R10.6", "io::Error::new(e.kind(), ..)", "kind preserved", where=g.where(n), nontrivial=False)
+        else:
+            rep.violation("R10.6", "open|error-kind-rewritten:%s" % (expr_s(kind)[:40] if kind else "other"), "io::Error::new",
+                          "an error raised while decoding is re-created with the fixed kind %s: a short read (UnexpectedEof) inside this field is "
+                          "reported as another kind, so a torn tail there is treated as a damaged record and open fails instead of truncating"
+                          % (expr_s(kind)[:40] if kind else "Other"), where=g.where(n))
+    rep.floor("R10.6", "derived error constructions examined in Op(open)", n_new, 1)
+
     # ---------------- R10.5 -------------------------------------------------------------
     r10_5(ctx, rep, M)
 
@@ -277,3 +305,11 @@ def r10_5(ctx, rep, M, rule="R10.5"):
                           where=g.where(P.gnode(bad_t[0])), path=describe_path(P, [k[0] for k in path_to(seen, bad_t)]))
         elif n_t:
             rep.ok(rule, "tail scan: 'all zero'", "only at end of file with no non-zero byte seen (%d return state(s))" % n_t, where=g.where(entry))
+
+
+def _ancestors(inst):
+    out = []
+    while inst is not None:
+        out.append(inst)
+        inst = inst.parent
+    return out
